@@ -377,6 +377,8 @@ Proof.
   - destruct (getc s c) as [k|] eqn:Hg; [|exact I]. apply vgood_ret.
     apply same_v_put. intros k0 Hk0 Hv. rewrite Hg in Hk0. injection Hk0 as <-. split; [exact Hv|reflexivity].
   - apply vgood_ret, same_v_refl.
+  - destruct (getc s c) as [k|] eqn:Hg; [|exact I]. destruct (k_alive k); [|exact I]. apply vgood_ret.
+    apply same_v_put. intros k0 Hk0 Hv. rewrite Hg in Hk0. injection Hk0 as <-. split; [exact Hv|reflexivity].
 Qed.
 
 Lemma vgood_ev_step strict s c e : vgood s (ev_step strict s c e).
@@ -453,21 +455,32 @@ Proof.
   - apply vgood_on_conn. intros k Hg Hn. apply vgood_ret, same_v_put. intros k0 Hk0 Hv. rewrite Hg in Hk0. injection Hk0 as <-. split; [exact Hv|reflexivity].
   - destruct (getc s c) as [k|] eqn:Hg; [|exact I]. destruct (k_urefs k); [exact I|]. destruct (_ && _ && _ && _ && _); [exact I|].
     apply vgood_finish, vgood_ret, same_v_put. intros k0 Hk0 Hv. rewrite Hg in Hk0. injection Hk0 as <-. split; [exact Hv|reflexivity].
-  - destruct (find_call u (s_calls s)); [exact I|]. apply vgood_on_conn. intros k Hg Hn. apply vgood_ret, same_v_conns. reflexivity.
+  - destruct (true && is_dtor a); [exact I|]. destruct (find_call u (s_calls s)); [exact I|].
+    destruct (is_dtor a); [destruct (_ && _); [|exact I]|]; apply vgood_on_conn; intros k Hg Hn; apply vgood_ret, same_v_conns; reflexivity.
   - destruct (find_call u (s_calls s)) as [a|]; [|exact I]. destruct (a_stored a); [exact I|].
     destruct (getc s (a_conn a)) as [k|] eqn:Hg; [|exact I].
-    destruct (true && negb (Bool.eqb (api_test (a_api a) k) (a_loaded a))) eqn:Eg; [exact I|]. cbn [andb] in Eg. apply negb_false_iff, eqb_prop in Eg.
+    destruct (is_dtor (a_api a)).
+    { apply vgood_move.
+      match goal with |- vmove s (if _ then force_close ?s2 _ else _) => assert (L : vmove s s2) by (apply vmove_same, same_v_conns; rewrite conns_enq; reflexivity) end.
+      destruct (a_loaded a); [eapply vmove_trans; [exact L|apply vmove_force_close]|exact L]. }
+    destruct (true && a_loaded a && negb (api_test (a_api a) k)) eqn:Eg; [exact I|]. cbn [andb] in Eg.
     apply vgood_move. destruct (a_loaded a && api_stores (a_api a)) eqn:El; [|apply vmove_same, same_v_conns; reflexivity].
-    apply andb_prop in El as [El Es]. rewrite El in Eg.
+    apply andb_prop in El as [El Es]. rewrite El in Eg. cbn [andb] in Eg. apply negb_false_iff in Eg.
     match goal with |- vmove s (put ?s1 _ _) => apply (vmove_trans s s1); [apply vmove_same, same_v_conns; reflexivity|] end.
     apply (vmove_put _ (a_conn a) k _ LDisc Hg). intros Hv.
     assert (Hcl : k_closable k = true).
     { unfold api_test in Eg. destruct (a_api a); try discriminate Es; try exact Eg. unfold k_closable. rewrite Eg. reflexivity. }
     apply (disc_step k Hcl Hv).
   - destruct (find_call u (s_calls s)) as [a|]; [|exact I]. destruct (negb (a_stored a)); [exact I|].
-    destruct (getc s (a_conn a)) as [k|] eqn:Hg; [|exact I]. destruct (_ && _ && _ && _); [exact I|].
+    destruct (getc s (a_conn a)) as [k|] eqn:Hg; [|exact I].
+    destruct (is_dtor (a_api a)).
+    { apply vgood_finish, vgood_ret.
+      match goal with |- same_v s (set_cli (put ?s1 _ _) _ _) => apply (same_v_trans s s1); [apply same_v_conns; reflexivity|];
+        apply (same_v_trans s1 (put s1 (a_conn a) (set_own k (k_ccb k) false (k_urefs k) (k_delayed k)))); [|apply same_v_conns; reflexivity] end.
+      apply same_v_put. intros k0 Hk0 Hv. change (getc s (a_conn a) = Some k0) in Hk0. rewrite Hg in Hk0. injection Hk0 as <-. split; [exact Hv|reflexivity]. }
+    destruct (_ && _ && _ && _); [exact I|].
     apply vgood_finish, vgood_ret. destruct (a_loaded a); [|apply same_v_conns; reflexivity].
-    destruct (a_api a); match goal with |- same_v s (enq ?s1 _ _) => apply (same_v_trans s s1); [apply same_v_conns; reflexivity|apply same_v_enq] end.
+    destruct (a_api a); try (apply same_v_conns; reflexivity); match goal with |- same_v s (enq ?s1 _ _) => apply (same_v_trans s s1); [apply same_v_conns; reflexivity|apply same_v_enq] end.
 Qed.
 
 (* ---- composition ------------------------------------------------------------------------------------ *)
@@ -553,6 +566,59 @@ Proof.
   intros s u a k r s' obs Hf Hns Hg Hr H cm reqs tm Hst. unfold Conn_Race.set_ok. cbn [xreqs find_req rq_thread]. rewrite Nat.eqb_refl.
   cbn [rq_passed rq_stored rq_kind xbase]. intros Hp _. rewrite Hst.
   unfold step in H. rewrite Hf, Hns, Hg in H.
-  destruct (true && negb (Bool.eqb (api_test (a_api a) k) (a_loaded a))) eqn:Eg; [discriminate|].
-  cbn [andb] in Eg. apply negb_false_iff, eqb_prop in Eg. rewrite <- (api_test_creq _ r k Hr). congruence.
+  assert (Hd : is_dtor (a_api a) = false) by (destruct (a_api a); try reflexivity; discriminate Hr). rewrite Hd in H.
+  destruct (true && a_loaded a && negb (api_test (a_api a) k)) eqn:Eg; [discriminate|].
+  cbn [andb] in Eg. rewrite Hp in Eg. cbn [andb] in Eg. apply negb_false_iff in Eg. rewrite <- (api_test_creq _ r k Hr). exact Eg.
+Qed.
+
+(* ... and conversely: in strict mode an XStore of such a request is refused only when set_ok fails *)
+Theorem S02_H3_only_set_ok : forall s u a k r cm reqs tm,
+  find_call u (s_calls s) = Some a -> a_stored a = false -> getc s (a_conn a) = Some k -> creq_of (a_api a) = Some r ->
+  st cm = k_st k -> Conn_Race.set_ok (mkX cm (mkReq u r (a_loaded a) false :: reqs) tm) (Conn_Model.XSet u) ->
+  step true s (XStore u) = step false s (XStore u).
+Proof.
+  intros s u a k r cm reqs tm Hf Hns Hg Hr Hst H. unfold step. rewrite Hf, Hns, Hg.
+  assert (Hd : is_dtor (a_api a) = false) by (destruct (a_api a); try reflexivity; discriminate Hr). rewrite Hd.
+  destruct (a_loaded a) eqn:El; [|reflexivity].
+  unfold Conn_Race.set_ok in H. cbn [xreqs find_req rq_thread] in H. rewrite Nat.eqb_refl in H.
+  cbn [rq_passed rq_stored rq_kind xbase] in H. specialize (H eq_refl eq_refl). rewrite Hst, <- (api_test_creq _ r k Hr) in H.
+  rewrite H. reflexivity.
+Qed.
+
+(* ---- whole runs ------------------------------------------------------------------------------------- *)
+Lemma conn_path_trans v1 e1 v2 e2 v3 : conn_path v1 e1 v2 -> conn_path v2 e2 v3 -> conn_path v1 (e1 ++ e2) v3.
+Proof.
+  induction 1 as [v|v cm co cm' ev e v2 HI Hc Hs Hp IH]; intros H2; [exact H2|].
+  rewrite <- app_assoc. eapply cp_step; [exact HI|exact Hc|exact Hs|apply IH, H2].
+Qed.
+
+Lemma run_projects ops : forall s s' obs, sreach s -> run true s ops = Ok (s', obs) ->
+  forall c, conn_path (viewof s c) (proj c obs) (viewof s' c).
+Proof.
+  induction ops as [|o ops IH]; intros s s' obs Hr H c; cbn [run] in H.
+  - injection H as <- <-. constructor.
+  - unfold bind in H. destruct (step true s o) as [[s1 o1]| |] eqn:E1; try discriminate.
+    destruct (run true s1 ops) as [[s2 o2]| |] eqn:E2; try discriminate. injection H as <- <-.
+    rewrite proj_app. eapply conn_path_trans; [eapply S02_projects_to_Conn; eassumption|].
+    apply (IH s1 s2 o2); [eapply sreach_step; eassumption|exact E2].
+Qed.
+
+(* the callbacks of every connection in every run of the owners model (under its hypotheses) are the
+   callbacks of a chain of Conn_Model steps that starts in the view of a fresh connection *)
+Theorem S02_run_projects_to_Conn : forall nio readd ops s obs, run true (init_sys nio readd) ops = Ok (s, obs) ->
+  forall c, conn_path vinit (proj c obs) (viewof s c).
+Proof.
+  intros nio readd ops s obs H c.
+  assert (E : viewof (init_sys nio readd) c = vinit) by (unfold viewof, getc; cbn; destruct c; reflexivity).
+  rewrite <- E. eapply run_projects; [apply sreach_init|exact H].
+Qed.
+
+Lemma ex_link_run : exists s o, run true (init_sys 2 false) ex_sys_ops = Ok (s, o) /\ proj 0 o = [LUp; LMsg; LDown] /\
+  conn_path vinit [LUp; LMsg; LDown] (viewof s 0) /\ v_st (viewof s 0) = Disconnected /\ v_reg (viewof s 0) = false.
+Proof.
+  destruct (run true (init_sys 2 false) ex_sys_ops) as [[s o]| |] eqn:E; [|vm_compute in E; discriminate E..].
+  exists s, o. split; [reflexivity|].
+  pose proof (S02_run_projects_to_Conn 2 false ex_sys_ops s o E 0) as P.
+  vm_compute in E. injection E as <- <-.
+  split; [reflexivity|]. split; [exact P|]. split; reflexivity.
 Qed.
